@@ -14,7 +14,7 @@ foreign id was delivered where the code inspects it are exempt: the real task pa
 silent about such shells).  Helper lemmas: `CruxVerif/Lemmas/Timer/*.lean`.
 -/
 import CruxVerif.Lemmas.Timer.Direct
-import CruxVerif.Lemmas.Timer.Legacy
+import CruxVerif.Lemmas.Timer.LegacyWorld
 namespace Props.C18
 open M.Timer S.Timer Lemmas.Timer
 
@@ -106,21 +106,8 @@ theorem drop_handle_no_cancel (k : Kind) (id : Nat) (acts : List (Act × Bool)) 
 /-- The same, directly on the model: once the handle is dropped no run ever sends a Clear request or reports cleared. -/
 theorem drop_handle_no_cancel_direct (t : Timer) (hi : inv t = true) (hd : t.handle = .dropped)
     (acts : List (Act × Bool)) :
-    ∀ x ∈ trace t acts, (∀ y ∈ x.2.2.effects, y ≠ .clear t.id) ∧ Ev.cleared ∉ x.2.2.events := by
-  have key : ∀ (acts : List (Act × Bool)) (u : Timer), handleDropped u → u.id = t.id →
-      ∀ x ∈ trace u acts, (∀ y ∈ x.2.2.effects, y ≠ .clear t.id) ∧ Ev.cleared ∉ x.2.2.events := by
-    intro acts
-    induction acts with
-    | nil => intro u _ _ x hx; simp [trace] at hx
-    | cons y rest ih =>
-      intro u hu hid x hx
-      obtain ⟨a, ran⟩ := y
-      have hs := handleDropped_step u a ran hu
-      simp only [trace, List.mem_cons] at hx
-      rcases hx with hx | hx
-      · rw [hx, ← hid]; exact hs.2
-      · exact ih _ hs.1 (by rw [step_id, hid]) x hx
-  exact key acts t ⟨hi, hd⟩ rfl
+    ∀ x ∈ trace t acts, (∀ y ∈ x.2.2.effects, y ≠ .clear t.id) ∧ Ev.cleared ∉ x.2.2.events :=
+  handleDropped_trace t.id acts t ⟨hi, hd⟩ rfl
 
 /-- After the outcome nothing is sent or reported any more (specification clause). -/
 theorem late_ignored (k : Kind) (id : Nat) (acts : List (Act × Bool)) :
@@ -186,35 +173,55 @@ timer's id is in CLEARED_TIMER_IDS and `newId` the id it gets when started.  `lv
 monitor; `strict = true` is the oracle, `strict = false` leaves out exactly the clause "a clear of a timer that is not
 pending sends nothing". -/
 
-/-- a legacy timer before it is started; its id is not in the cleared set -/
-abbrev lfresh (k : Kind) : LTimer := { kind := k }
-
-/-- **Full statement for the legacy API**: the oracle accepts every history of a legacy timer. -/
+/-- **Full statement for the legacy API**: the oracle accepts every joint history of legacy timers (any number of
+    timers sharing the id counter and CLEARED_TIMER_IDS; `ids` are the ids the timers end up with). -/
 def C18_legacy_full : Prop :=
-  ∀ (k : Kind) (newId : Nat) (acts : List LAct),
-    lverdict1 true k (lfinal1 newId (lfresh k) false acts).id {} (ltrace1 newId (lfresh k) false acts) = none
+  ∀ (counter : Nat) (kinds : List Kind) (steps : List (LAct × Nat)),
+    counter + steps.length < 18446744073709551616 →
+    lverdict true kinds ((lfinal (mkLWorld counter kinds) steps).timers.map (·.id)) steps true
+      (lrun (mkLWorld counter kinds) steps) = none
 
 /-- It is false on the unchanged code: a timer started and cleared in the same `update` — the shell never saw it — still
     makes `clear` send `Clear{id}` (lib.rs:151-163 notifies unconditionally).  Reproduced against the real code by the
     corpus case `legacy A S0` (known finding `legacy-clear-always-notifies`). -/
 theorem C18_legacy_full_false : ¬ C18_legacy_full := by
   intro h
-  have := h .after 1 [.startClear]
+  have := h 1 [.after] [(.startClear, 0)] (by decide)
   revert this
   decide
 
 /-- the witness, spelled out: the model shows `Clear{1}` and `Cleared{1}`, the oracle names the clause -/
 theorem legacy_clear_before_start_not_silent :
-    ltrace1 1 (lfresh .after) false [.startClear] = [⟨.startClear, .unit, [.clear 1], [.got (.cleared 1)]⟩] ∧
-    lverdict1 true .after (some 1) {} (ltrace1 1 (lfresh .after) false [.startClear])
+    lrun (mkLWorld 1 [.after]) [(.startClear, 0)] = [{ effects := [.clear 1], events := [.got (.cleared 1)] }] ∧
+    lverdict true [.after] [some 1] [(.startClear, 0)] true (lrun (mkLWorld 1 [.after]) [(.startClear, 0)])
       = some "legacy-clear-always-notifies" := by
   decide
 
-/-- **Partial statement**: every other clause holds for every history of a legacy timer — at most one outcome, a
-    non-cleared outcome only if the shell answered (and then exactly its answer), cleared only if the app cleared it,
-    a clear while pending sends exactly one `Clear{id}` for its id, everything carries the timer's own id, nothing
-    shows up in steps that do not run the timer. -/
-theorem C18_legacy_partial (k : Kind) (newId : Nat) (acts : List LAct) :
+/-- **Partial statement**: every other clause holds for every joint history of legacy timers — at most one outcome, a
+    non-cleared outcome only if the shell answered (and then exactly its answer), cleared only if the app cleared it
+    and then reported when the shell next answers, a clear while pending sends exactly one `Clear{id}` for its id,
+    everything carries the timer's own id, nothing shows up in steps that do not run the timer, timers do not
+    interfere through the shared set.  `lverdict false` is the oracle without exactly the clause "a clear of a timer
+    that is not pending sends nothing". -/
+theorem C18_legacy_partial (counter : Nat) (kinds : List Kind) (steps : List (LAct × Nat))
+    (hb : counter + steps.length < 18446744073709551616) :
+    lverdict false kinds ((lfinal (mkLWorld counter kinds) steps).timers.map (·.id)) steps true
+      (lrun (mkLWorld counter kinds) steps) = none :=
+  lverdict_lrun counter kinds steps hb
+
+/-- Legacy timers also get pairwise distinct ids, below the counter, and CLEARED_TIMER_IDS holds the id of a pending
+    timer exactly when `clear` was called for it — in every reachable joint state. -/
+theorem legacy_ids_unique (counter : Nat) (kinds : List Kind) (steps : List (LAct × Nat))
+    (hb : counter + steps.length < 18446744073709551616) :
+    WInv (lfinal (mkLWorld counter kinds) steps) :=
+  winv_lfinal steps _ (winv_init counter kinds) hb
+
+/-- a legacy timer before it is started -/
+abbrev lfresh (k : Kind) : LTimer := { kind := k }
+
+/-- One legacy timer with the membership of its id tracked as a flag (`ltrace1`): the partial statement again, for
+    every action list, without any assumption on the counter. -/
+theorem legacy_one_timer_partial (k : Kind) (newId : Nat) (acts : List LAct) :
     lverdict1 false k (lfinal1 newId (lfresh k) false acts).id {} (ltrace1 newId (lfresh k) false acts) = none :=
   lverdict1_ltrace1 newId acts (lfresh k) false {} (linv_fresh k) (LR_fresh k) (by intro _; rfl)
 
